@@ -61,7 +61,7 @@ func gen(g *hx.Gen) {
 	emit := func(c sauth.Cfg, reqs []sauth.Req) { g.Emit("%s", sauth.Finish(c, reqs)) }
 
 	// (1) failure accounting: histories of failing / free / partial / query requests around the limit
-	n1 := g.Count(3500, 100000)
+	n1 := g.Count(3000, 100000)
 	for i := 0; i < n1; i++ {
 		c := sauth.RandCfg(r, true)
 		c.MaxTries = r.PickInt(-1, 0, 1, 2, 3, 6)
@@ -100,7 +100,7 @@ func gen(g *hx.Gen) {
 
 	// (2) the 128-request cap: long histories that never fail for real (queries, partial successes,
 	//     unlimited tries), lengths around 128 and up to 140
-	n2 := g.Count(120, 3000)
+	n2 := g.Count(90, 3000)
 	for i := 0; i < n2; i++ {
 		c := sauth.RandCfg(r, true)
 		c.Vpk, c.Ban = false, "n"
@@ -138,7 +138,7 @@ func gen(g *hx.Gen) {
 	}
 
 	// (3) user changes around partial success
-	n3 := g.Count(2500, 60000)
+	n3 := g.Count(2000, 60000)
 	for i := 0; i < n3; i++ {
 		c := sauth.RandCfg(r, true)
 		ln := r.Range(2, 6)
@@ -165,7 +165,7 @@ func gen(g *hx.Gen) {
 	}
 
 	// (4) source-address: random option values on every permissions id × random peers
-	n4 := g.Count(5000, 100000)
+	n4 := g.Count(4000, 100000)
 	for i := 0; i < n4; i++ {
 		c := sauth.RandCfg(r, true)
 		c.Addr = randAddr(r)
@@ -197,7 +197,7 @@ func gen(g *hx.Gen) {
 	}
 
 	// (5) the size-1 key cache: interleavings of queries / signatures over 3 keys and 2 users
-	n5 := g.Count(3000, 60000)
+	n5 := g.Count(2500, 60000)
 	for i := 0; i < n5; i++ {
 		c := sauth.RandCfg(r, true)
 		c.MaxTries = -1
